@@ -4,11 +4,11 @@ from .core import log
 
 RULE = ("start documents with a unique comment and deliberate spacing on every entry (scalars, arrays incl. multi-line, inline "
         "tables, dotted keys, standard tables incl. super-table after sub-table, arrays of tables with interleaved sub-tables and "
-        "nested arrays of tables) x every history of <= 2 operations (quick: all single operations, second operations sampled) "
-        "from {insert new key, replace value, remove, array push / insert / replace / remove, array-of-tables push / remove, "
-        "sort_values} on every addressable table position, enumerated by TLC on the MCEdit machine (content-level laws checked); "
+        "nested arrays of tables, out-of-order headers, nested and dotted inline tables) x every history of <= 2 operations (quick: all single operations, second operations sampled) "
+        "from {insert new key (scalar or table), replace value, remove, array push / insert / replace / remove, array-of-tables push / remove, "
+        "sort_values, fmt, clear, to_inline, to_table} on every addressable table position, enumerated by TLC on the MCEdit machine (content-level laws checked); "
         "each history is applied through the public API and printed after every step; TLC validates every step: valid TOML, "
-        "content = operation applied to the previous content, survivors in their relative order, and every statement line and "
+        "content = operation applied to the previous content, survivors in their relative order (after sort_values: body pairs ascending, headers and value containers in their order), and every statement line and "
         "attached comment that the operation does not name still present verbatim and in order. "
         "distinct_nontrivial = distinct (document, history) pairs")
 CFG = """SPECIFICATION Spec
@@ -23,7 +23,7 @@ PROPERTY OnlyTouchedChanges
 PROPERTY InsertThenRemoveIsIdentity
 CHECK_DEADLOCK FALSE
 """
-NDOCS = 3
+NDOCS = 4
 
 
 def known_for(ctx, m):
@@ -63,7 +63,7 @@ def run(ctx):
     steps = 0
     skipped = 0
     for e in core.read_ndjson(evp):
-        ctx.nontrivial.add((e["doc"], json.dumps([[s["op"], s["path"], s["key"], s["i"]] for s in e["steps"]])))
+        ctx.nontrivial.add((e["doc"], json.dumps([[s["op"], s["path"], s["key"], s["i"], s["v"]["k"]] for s in e["steps"]])))
         steps += sum(1 for s in e["steps"] if s["res"] == "ok")
         skipped += sum(1 for s in e["steps"] if s["res"] == "skip")
         if len(ctx.samples) < 4 and len(e["steps"]) == 2 and all(s["res"] == "ok" for s in e["steps"]) and len(ctx.nontrivial) % 97 == 0:
